@@ -10,6 +10,7 @@ import (
 	"os"
 	"path"
 	"path/filepath"
+	"sort"
 	"strings"
 	"sync"
 	"syscall"
@@ -286,21 +287,30 @@ func (l *localFS) KeysPrefix(_ context.Context, token, prefix, delimiter string,
 	defer l.exclusive.Unlock()
 
 	noRoot := !strings.HasPrefix(prefix, "/")
-	prefix = path.Clean("/" + prefix)
+	if noRoot {
+		prefix = "/" + prefix
+	}
+	// the prefix is a plain string prefix on keys: only the directory part can narrow down the walk
+	walkRoot := path.Clean(prefix[:strings.LastIndex(prefix, "/")+1])
+	cacheKey := prefix + "\x00" + delimiter
+	if token == "" {
+		// a new listing starts: never serve it from a previous, possibly abandoned, fetch loop
+		delete(l.glob, cacheKey)
+	}
 
 	// we cache the result for the duration of the fetch loop: during this period, localfs updates are not seen
-	search, ok := l.glob[prefix]
+	search, ok := l.glob[cacheKey]
 	if !ok {
 		// NOTE: Glob is not workable, fall back to Walk
 		matches := make([]string, 0, 50)
-		err := afero.Walk(l.fs, path.Dir(prefix), func(pth string, info os.FileInfo, err error) error {
-			if info.IsDir() || err != nil {
+		err := afero.Walk(l.fs, walkRoot, func(pth string, info os.FileInfo, err error) error {
+			if err != nil || info == nil || info.IsDir() {
 				return nil
 			}
 			if strings.HasPrefix(pth, prefix) {
-				if delimiter != "" && len(pth) > len(prefix) {
+				if delimiter != "" {
 					if cut := strings.Index(pth[len(prefix):], delimiter); cut > -1 {
-						pth = pth[0 : len(prefix)+cut+1]
+						pth = pth[0 : len(prefix)+cut+len(delimiter)]
 					}
 				}
 				if noRoot {
@@ -313,24 +323,16 @@ func (l *localFS) KeysPrefix(_ context.Context, token, prefix, delimiter string,
 		if err != nil {
 			return nil, "", err
 		}
-		if delimiter != "" {
-			// dedupe truncated matches
-			deduped := make([]string, 0, len(matches))
-			for _, match := range matches {
-				dupe := false
-				for _, lookup := range deduped {
-					if match == lookup {
-						dupe = true
-						break
-					}
-				}
-				if !dupe {
-					deduped = append(deduped, match)
-				}
+		// keys are listed once, in lexicographic order (the walk order is per directory level)
+		sort.Strings(matches)
+		deduped := matches[:0]
+		for i, match := range matches {
+			if i == 0 || match != matches[i-1] {
+				deduped = append(deduped, match)
 			}
-			matches = deduped
 		}
-		l.glob[prefix], search = matches, matches
+		matches = deduped
+		l.glob[cacheKey], search = matches, matches
 	}
 
 	var (
@@ -351,7 +353,7 @@ func (l *localFS) KeysPrefix(_ context.Context, token, prefix, delimiter string,
 			break
 		}
 		if !found {
-			delete(l.glob, prefix)
+			delete(l.glob, cacheKey)
 			return []string{}, "", nil
 		}
 	}
@@ -362,7 +364,7 @@ func (l *localFS) KeysPrefix(_ context.Context, token, prefix, delimiter string,
 	} else {
 		next = ""
 		end = len(search)
-		delete(l.glob, prefix)
+		delete(l.glob, cacheKey)
 	}
 
 	return search[start:end], next, nil
